@@ -13,6 +13,8 @@ pub const T_COIL: u8 = 0;
 pub const T_DISCRETE: u8 = 1;
 pub const T_HOLDING: u8 = 2;
 pub const T_INPUT: u8 = 3;
+/// reading this holding / input register takes 400 ms (real time)
+pub const SLOW_REGISTER: u16 = 9999;
 
 #[derive(Clone, Debug)]
 pub struct Hole {
@@ -82,6 +84,10 @@ impl DbHandler {
             Err(e) => 1000 + u8::from(e) as u32,
         };
         self.sink.read(self.u, t, a, out);
+        if a == SLOW_REGISTER {
+            // a slow application handler: the session is busy inside the handler for a while
+            std::thread::sleep(std::time::Duration::from_millis(400));
+        }
         r
     }
 
